@@ -232,6 +232,8 @@ def history(rng, ncalls=None, allow_error=True):
             t.append("PRINT\n -selected_output %s\n" % rng.choice(["false", "false", "true"]))
         elif kind == "dump":
             t.append("DUMP\n -solution %d\n" % rng.choice(sols) + (" -append %s\n" % rng.choice(["true", "false"]) if rng.random() < 0.5 else ""))
+        if kind != "dump" and rng.random() < 0.12:
+            t.append("DUMP\n -solution %d\n" % rng.choice(sols) + (" -append %s\n" % rng.choice(["true", "false"]) if rng.random() < 0.4 else ""))
         t.append("END\n")
         if kind == "late-block":
             u = rng.choice(POOL)
@@ -251,3 +253,28 @@ def history(rng, ncalls=None, allow_error=True):
             t.append("END\n")
         calls.append("".join(t))
     return calls, kinds
+
+
+def stream_input2(rng, **kw):
+    """stream_input plus: a part of the input delivered through INCLUDE$ (file written into the run directory first), a
+    warning-producing simulation in the middle of the call, several simulations. Returns (input, users, files)."""
+    inp, users = stream_input(rng, **kw)
+    files = {}
+    sims = inp.split("END\n")
+    extra = []
+    if rng.random() < 0.5:
+        name = rng.choice(["inc1.pqi", "part two.inc"])
+        files[name] = "SOLUTION 8\n pH 6.5\n Na 2\n Cl 2\nEND\n" + (
+            "USE solution 8\nREACTION 2\n NaCl 1\n 0.01\nEND\n" if rng.random() < 0.5 else "")
+        extra.append("INCLUDE$ %s\n" % name)
+    if rng.random() < 0.5:
+        # warnings in the middle of the call: charge balance on pH that cannot be reached / unknown option
+        extra.append("SOLUTION 9\n pH 7 charge\n Na 1\n Cl 1.2\n -water 1\nEND\n")
+    if rng.random() < 0.3:
+        extra.append("USE solution 1\nREACTION_TEMPERATURE 1\n 30 40\nEND\n")
+    if extra and len(sims) > 1:
+        k = rng.randint(1, len(sims) - 1)
+        head = "END\n".join(sims[:k]) + "END\n"
+        tail = "END\n".join(sims[k:])
+        inp = head + "".join(extra) + tail
+    return inp, users, files
